@@ -263,8 +263,9 @@ def run(ctx, rep, tier):
     rep.rule("C01.j", "foreach: the do-actions are prepended to every consuming transition of the body that does not go to an error handler")
     fe = model.func("ForeachNode.convert")
     skips = [n for n in ast.walk(fe) if isinstance(n, ast.If) and n.body and isinstance(n.body[-1], ast.Continue)]
-    ok = len(skips) == 1 and ast.unparse(skips[0].test) == "transition.target in ignored_targets or transition.is_fallthrough"
-    rep.check(ok, "C01.j", "ForeachNode.convert", "skips only transitions into error handlers and non-consuming transitions",
+    tests = sorted(ast.unparse(x.test) for x in skips)
+    ok = tests == sorted(["transition.target in ignored_targets or transition.is_fallthrough", "set(transition.on_values) == {DFTransition.End}"])
+    rep.check(ok, "C01.j", "ForeachNode.convert", "skips only transitions into error handlers, non-consuming transitions and transitions on end-of-input alone",
               f"foreach skips transitions under `{ast.unparse(skips[0].test) if skips else None}`: some consumed bytes (e.g. bytes skipped by a wait) no longer run the do-actions")
     fsrc = ast.unparse(fe)
     rep.check("transition.attach(*self.each_actions, prepend=True)" in fsrc and "ignored_targets = set(current_error_handlers.values())" in fsrc and "for state in sub_dfa.states:" in fsrc
